@@ -1,6 +1,7 @@
 import XmppModel.Prelude.Hex
 import XmppModel.Model.Ibb
 import XmppModel.Model.IbbReader
+import XmppModel.Model.IbbReaders
 import XmppModel.Model.IbbSend
 import XmppModel.Model.IbbClose
 /-! Driver module for C15.
@@ -82,7 +83,7 @@ def parseSOp (t : String) : Option SOp :=
 def showPacket (p : Packet) : String := s!"{p.seq}:{showBool p.known}:{hexEncode p.payload}"
 
 /-- `C15 lsn <ops>`: listener life cycle.  ops `,`-joined: L Listen, K Listener.Close, A Accept
-called, O<sid> incoming open request.  answer per op: `l` / `k` / `a` / `res` | `na` | `wait`
+called, O<sid> incoming open request, E<sid> Expect called for that sid, X its context ends.  answer per op: `l` / `k` / `a` / `res` | `na` | `wait`
 (the serve loop is still inside the previous hand-off), each followed by `+c` / `+e` for every
 Accept call that returns a connection / an error at that point -/
 def lsnRun : LState → List String → Option (List String)
@@ -93,6 +94,8 @@ def lsnRun : LState → List String → Option (List String)
       | ['K'] => some (LOp.closeL, "k")
       | ['A'] => some (LOp.accept, "a")
       | 'O' :: r => (String.ofList r).toNat?.map fun n => (LOp.open n, "o")
+      | 'E' :: r => (String.ofList r).toNat?.map fun n => (LOp.expect n, "e")
+      | ['X'] => some (LOp.cancelExpect, "x")
       | _ => none
     let o := lstep s op
     let base := match op, o.reply with
@@ -100,9 +103,28 @@ def lsnRun : LState → List String → Option (List String)
       | .open _, some false => "na"
       | .open _, none => "wait"
       | _, _ => tag
-    let suffix := String.join (List.replicate o.conns "+c") ++ String.join (List.replicate o.errs "+e")
+    let suffix := String.join (List.replicate o.conns "+c") ++ String.join (List.replicate o.errs "+e") ++
+      (if o.xconn then "+xc" else "") ++ (if o.xerr then "+xe" else "")
     let rest ← lsnRun o.st ts
     pure ((base ++ suffix) :: rest)
+
+/-- `C15 readers <k> <events>`: k goroutines are parked in `Read` on an empty stream (each between
+its empty check and its wait), then the events happen (`,`-joined: P<n> a packet of n bytes, C a
+close by either side), then the readers run until none of them can move.
+answer: `returned=<r> delivered=<bytes> eofs=<m>` -/
+def readersExhaust (k : Nat) : Nat → IbbReaders.St → IbbReaders.St
+  | 0, s => s
+  | fuel + 1, s =>
+    let acts := (List.range k).flatMap fun i => [IbbReaders.Act.enterWait i, .wake i, .recheck i]
+    match acts.findSome? (fun a => IbbReaders.step true s a) with
+    | some s' => readersExhaust k fuel s'
+    | none => s
+
+def readersEvent (s : IbbReaders.St) (t : String) : Option IbbReaders.St :=
+  match t.toList with
+  | ['C'] => IbbReaders.step true s .close
+  | 'P' :: r => do let n ← (String.ofList r).toNat?; IbbReaders.step true s (.packet n)
+  | _ => none
 
 def handle (args : List String) : Option String :=
   match args with
@@ -118,6 +140,13 @@ def handle (args : List String) : Option String :=
     let b ← bs.toNat?
     let os ← mapM? parseSOp (splitList ops)
     pure (joinList ((mkPackets 0 (srun (sinit b) os).chunks).map showPacket))
+  | ["readers", k, events] => do
+    let k ← k.toNat?
+    let s0 ← (List.range k).foldlM (fun s i => IbbReaders.step true s (.readStart i)) ({} : IbbReaders.St)
+    let s1 ← (splitList events).foldlM readersEvent s0
+    let s := readersExhaust k (8 * k + 8) s1
+    let returned := ((List.range k).filter fun i => s.rpc i == .idle).length
+    pure s!"returned={returned} delivered={s.delivered} eofs={s.eofs}"
   | ["lsn", ops] => (lsnRun {} (splitList ops)).map joinList
   | ["close", fault] =>
     -- C15 close <none|flush|send|reply|deadline>: Close with a fault at that step, then Read and a
